@@ -2,6 +2,9 @@ import CkbVerif.Lemmas.MoleculeAccess
 import CkbVerif.Lemmas.Compact
 import CkbVerif.Lemmas.Frame
 import CkbVerif.Lemmas.Exchange
+import CkbVerif.Lemmas.Alert
+import CkbVerif.Lemmas.UnclePos
+import CkbVerif.Model.LightGuards
 import CkbVerif.Model.Frame
 import CkbVerif.Gen.Schemas
 /-!
@@ -761,6 +764,56 @@ theorem uncles_verifier_prefix_admits_panic :
       unclesTake idx recv uncles 0 0 = none ∧ unclesVerifyFixed uncles idx recv = false :=
   ⟨[500], [0], [], by decide⟩
 
+/-- UNCLE-POSITION BINDING: for a request whose indexes are strictly increasing and in range, an
+answer `BlockUnclesVerifier` accepts makes the uncles loop of `reconstruct_block` put at every
+requested index `i` exactly the uncle the compact block lists at `i` (the `position` counter of the
+loop and the order of `received_uncles` cannot drift apart) -/
+theorem uncle_position_binding (uncles idx recv : List Nat) (hs : idx.Pairwise (· < ·))
+    (hin : ∀ i ∈ idx, i < uncles.length) (hv : unclesVerifyFixed uncles idx recv = true)
+    (pairs : List (Nat × Nat)) (ht : unclesTake idx recv uncles 0 0 = some pairs) :
+    ∀ p ∈ pairs, uncles[p.1]? = some p.2 := by
+  unfold unclesVerifyFixed at hv
+  simp only [Bool.and_eq_true, beq_iff_eq] at hv
+  have hr : recv = idx.filterMap (fun i => uncles[i]?) := (zipAllEq_eq _ _ hv.1 hv.2).symm
+  subst hr
+  have h0 : below idx 0 = 0 := by simp [below]
+  exact unclesTake_binds uncles idx hs hin uncles 0 pairs (by rw [h0]; exact ht)
+
+/-- … and the node's own request satisfies the hypothesis: the missing-uncle indexes
+`reconstruct_block` reports (which `CompactBlockProcess` sends as `uncle_indexes` and keeps as the
+expected ones) are strictly increasing and below the number of uncles -/
+theorem reconstruct_missing_uncles_sorted_in_range (h : Hashes) (cb : CB) (received : List Tx)
+    (pool : Nat → Option Tx) (src : Nat → UncleSrc) (fromPeer : List Nat) (txs us : List Nat)
+    (hm : reconstruct h cb received pool src fromPeer = .missing txs us) :
+    us.Pairwise (· < ·) ∧ ∀ j ∈ us, j < cb.uncles.length := by
+  unfold reconstruct at hm
+  cases hg : unclesGo src fromPeer cb.uncles 0 with
+  | none => simp [hg] at hm
+  | some r =>
+    obtain ⟨a, b⟩ := unclesGo_missing_sorted src fromPeer cb.uncles 0 r hg
+    simp only [hg] at hm
+    have hus : us = r.2 := by
+      split at hm
+      · split at hm
+        · split at hm <;> simp at hm
+        · split at hm <;> simp at hm
+      · simp only [Result.missing.injEq] at hm
+        exact hm.2.symm
+    subst hus
+    exact ⟨a, fun j hj => by have := b j hj; omega⟩
+
+/-- WITNESS: the hypothesis "strictly increasing" is needed — for the request `[1, 0]` the verifier
+accepts the uncles in the requested order and the loop (which walks the compact block's order) puts
+uncle 1 at index 0; the block-hash comparison of /repo f15aab0 (`reconstruct_sound`) is what refuses
+the resulting block -/
+theorem uncle_position_unsorted_request_mixes_up :
+    ∃ uncles idx recv pairs, unclesVerifyFixed uncles idx recv = true ∧
+      unclesTake idx recv uncles 0 0 = some pairs ∧ ∃ p ∈ pairs, uncles[p.1]? ≠ some p.2 :=
+  ⟨[500, 501], [1, 0], [501, 500], [(0, 501), (1, 500)], by decide, by decide, (0, 501), by decide, by decide⟩
+
+example : unclesVerifyFixed [500, 501, 502] [0, 2] [500, 502] = true ∧
+    unclesTake [0, 2] [500, 502] [500, 501, 502] 0 0 = some [(0, 500), (2, 502)] := by decide
+
 /-- the two verifiers differ only in the length check: on answers of the requested length they agree -/
 theorem uncles_verifiers_agree_on_equal_length (uncles idx recv : List Nat)
     (hl : (expectedUncles uncles idx).length = recv.length) :
@@ -935,6 +988,379 @@ theorem parent_root_leaf_total (n : Nat) :
 /-- WITNESS (before /repo edc6fe7): the genesis block as last block underflows -/
 theorem parent_root_leaf_prefix_underflows : parentRootLeafPreFix 0 = none ∧ parentRootLeaf 0 = some none := by decide
 
+/-- the guards of `GetLastStateProofProcess::execute` in front of the sampling (`Model/LightGuards.lean`)
+never hit an arithmetic panic, for every chain and every message (the number of difficulties a
+message can carry is far below `u64::MAX - 2 * LIMIT`) -/
+theorem glsp_guards_total (chain : List Bytes) (bs : Bytes)
+    (hn : CkbVerif.Molecule.num (fld (bs.drop 4) 5) + 2 * GET_LAST_STATE_PROOF_LIMIT ≤ U64_MAX) :
+    glspGuards chain bs ≠ none := by
+  unfold glspGuards
+  simp only
+  rw [too_many_samples_total _ _ hn]
+  generalize decide (leNat (fld (bs.drop 4) 3) > GET_LAST_STATE_PROOF_LIMIT ∨
+    CkbVerif.Molecule.num (fld (bs.drop 4) 5) + leNat (fld (bs.drop 4) 3) * 2 > GET_LAST_STATE_PROOF_LIMIT) = b
+  cases b with
+  | true => simp
+  | false =>
+    simp only
+    cases chain.findIdx? (· == fld (bs.drop 4) 0) with
+    | none => simp
+    | some n =>
+      simp only [span_total]
+      by_cases hs : leNat (fld (bs.drop 4) 2) > n
+      · simp [hs]
+      · simp only [hs, if_false]
+        split
+        · simp
+        · split <;> simp
+
+/-- what "every guard passed" means: the last block is the main-chain block of that number, the start
+number is not above it, the difficulties are strictly increasing and all below the boundary, and
+the request is within the sample limit -/
+theorem glsp_proceed_sound (chain : List Bytes) (bs : Bytes) (l : Nat)
+    (h : glspGuards chain bs = some (.proceed l)) :
+    chain[l]? = some (fld (bs.drop 4) 0) ∧ leNat (fld (bs.drop 4) 2) ≤ l ∧
+    strictlyIncreasing (u256Items (fld (bs.drop 4) 5)) = true ∧
+    lastAtLeast (u256Items (fld (bs.drop 4) 5)) (leNat (fld (bs.drop 4) 4)) = false ∧
+    tooManySamples (CkbVerif.Molecule.num (fld (bs.drop 4) 5)) (leNat (fld (bs.drop 4) 3)) = some false := by
+  unfold glspGuards at h
+  simp only at h
+  cases htm : tooManySamples (CkbVerif.Molecule.num (fld (bs.drop 4) 5)) (leNat (fld (bs.drop 4) 3)) with
+  | none => simp [htm] at h
+  | some b =>
+    cases b with
+    | true => simp [htm] at h
+    | false =>
+      simp only [htm] at h
+      cases hidx : chain.findIdx? (· == fld (bs.drop 4) 0) with
+      | none => simp [hidx] at h
+      | some n =>
+        simp only [hidx, span_total] at h
+        by_cases hs : leNat (fld (bs.drop 4) 2) > n
+        · simp [hs] at h
+        · simp only [hs, if_false] at h
+          by_cases hsort : strictlyIncreasing (u256Items (fld (bs.drop 4) 5)) = true
+          · simp only [hsort, Bool.not_true, Bool.false_eq_true, if_false] at h
+            by_cases hb : lastAtLeast (u256Items (fld (bs.drop 4) 5)) (leNat (fld (bs.drop 4) 4)) = true
+            · simp [hb] at h
+            · have hbf : lastAtLeast (u256Items (fld (bs.drop 4) 5)) (leNat (fld (bs.drop 4) 4)) = false := by simpa using hb
+              simp only [hbf, Bool.false_eq_true, if_false, Option.some.injEq, Glsp.proceed.injEq] at h
+              subst h
+              refine ⟨?_, by omega, hsort, by simpa using hb, rfl⟩
+              obtain ⟨hlt, heq, _⟩ := List.findIdx?_eq_some_iff_getElem.mp hidx
+              rw [List.getElem?_eq_getElem hlt]
+              simpa using heq
+          · simp [hsort] at h
+
+example : glspGuards [[1], [2], [3]] [] = some .tipState := by decide
+
 end LightArithmetic
+
+/-! ### (h) alert messages: the signature threshold as a decision, the handler's effects
+
+`Model/Alert.lean` follows `AlertRelayer::received`, `Verifier::verify_signatures`,
+`verify_m_of_n` and `Notifier::add`; public-key recovery is a parameter (`rec` = what
+`sig.recover(message).ok()` answers per counted signature). -/
+section Alert
+open CkbVerif.Alert
+variable {K : Type} [DecidableEq K]
+
+/-- DECISION: `verify_m_of_n` answers `Ok` exactly when the signature count is within the two length
+bounds and `m` pairwise different configured keys are each recovered from some signature — for
+every threshold, key set and signature list (duplicated signatures, several signatures of one key
+and the `take(m)` cut-off included) -/
+theorem alert_threshold_decision (m : Nat) (rec : List (Option K)) (pks : List K) :
+    verifyMofN m rec pks = none ↔
+      rec.length ≤ pks.eraseDups.length ∧ m ≤ rec.length ∧
+      ∃ ks : List K, ks.Nodup ∧ ks.length = m ∧ ∀ k ∈ ks, k ∈ pks ∧ some k ∈ rec := by
+  unfold verifyMofN
+  simp only [countDistinct_eq]
+  constructor
+  · intro h
+    split at h
+    · simp at h
+    · split at h
+      · simp at h
+      · split at h
+        · simp at h
+        · rename_i h1 h2 h3
+          refine ⟨by omega, by omega, (fresh pks rec []).take m, ?_, ?_, ?_⟩
+          · exact List.Sublist.nodup (List.take_sublist _ _) (fresh_nodup pks rec [])
+          · simp only [List.length_take]; omega
+          · intro k hk
+            obtain ⟨a, _, c⟩ := fresh_mem pks rec [] k (List.mem_of_mem_take hk)
+            exact ⟨a, c⟩
+  · rintro ⟨h1, h2, ks, hn, hl, hm⟩
+    have hle : ks.length ≤ (fresh pks rec []).length :=
+      nodup_subset_length_le ks _ hn (fun k hk => mem_fresh pks rec [] k (hm k hk).1 (by simp) (hm k hk).2)
+    rw [if_neg (by omega), if_neg (by omega), if_neg (by omega)]
+
+/-- SOUNDNESS, the direction that matters for a peer's bytes: an accepted signature list carries
+`m` pairwise different configured keys -/
+theorem alert_accept_needs_threshold_distinct_member_keys (m : Nat) (rec : List (Option K)) (pks : List K)
+    (h : verifyMofN m rec pks = none) :
+    ∃ ks : List K, ks.Nodup ∧ ks.length = m ∧ ∀ k ∈ ks, k ∈ pks ∧ some k ∈ rec :=
+  ((alert_threshold_decision m rec pks).mp h).2.2
+
+/-- the error a refused list gets, in the order of the code: count above the number of keys, count
+below the threshold, else the number of distinct configured keys found (which is below `m`) -/
+theorem alert_threshold_error (m : Nat) (rec : List (Option K)) (pks : List K) (e : MErr)
+    (h : verifyMofN m rec pks = some e) :
+    (e = .sigCountOverflow ∧ rec.length > pks.eraseDups.length) ∨
+    (e = .sigNotEnough ∧ rec.length ≤ pks.eraseDups.length ∧ m > rec.length) ∨
+    (∃ c, e = .threshold c ∧ c < m ∧ c = (fresh pks rec []).length) := by
+  unfold verifyMofN at h
+  simp only [countDistinct_eq] at h
+  split at h
+  · left; cases h; exact ⟨rfl, by assumption⟩
+  · split at h
+    · right; left; cases h; exact ⟨rfl, by omega, by assumption⟩
+    · split at h
+      · right; right
+        rename_i h3
+        cases h
+        exact ⟨_, rfl, h3, by omega⟩
+      · simp at h
+
+example : verifyMofN 2 [some 1, some 3] [1, 2, 3] = none ∧
+    -- the same key twice counts once; an unknown key does not count; a duplicated configured key is one key
+    verifyMofN 2 [some 1, some 1] [1, 2, 3] = some (.threshold 1) ∧
+    verifyMofN 2 [some 1, some 9] [1, 2, 3] = some (.threshold 1) ∧
+    verifyMofN 1 [some 1, none] [1, 1] = some .sigCountOverflow ∧
+    verifyMofN 3 [some 1, some 2] [1, 2, 3] = some .sigNotEnough := by decide
+
+/-- WITNESS: a configured threshold of 0 accepts an alert nobody signed (the configuration, not the
+code, must exclude it) -/
+theorem alert_threshold_zero_accepts_unsigned (pks : List K) : verifyMofN 0 ([] : List (Option K)) pks = none := by
+  simp [verifyMofN, countDistinct]
+
+/-- the handler relays a message (and hands it to the notifier) only if it passed the gate, its id
+was not known, and `m` pairwise different configured keys each produced one of its counted
+(65 bytes, `is_valid`) signature items -/
+theorem alert_relayed_only_if_signed (m : Nat) (pks : List K) (st : St) (peer : Nat) (conn : List Nat)
+    (bs : Bytes) (cls : List (Option K)) (eff : Bool) (to : List Nat)
+    (h : (received m pks st peer conn bs cls eff).2 = .relay to) :
+    gate bs = .pass ∧ hasReceived st (alertOf bs).id = false ∧
+    ∃ ks : List K, ks.Nodup ∧ ks.length = m ∧
+      ∀ k ∈ ks, k ∈ pks ∧ ∃ item, (item, some k) ∈ (sigItems bs).zip cls ∧ sigCounted item = true := by
+  unfold received at h
+  split at h
+  · simp at h
+  · simp at h
+  · rename_i hg
+    simp only at h
+    split at h
+    · simp at h
+    · rename_i hr
+      split at h
+      · simp at h
+      · rename_i hv
+        refine ⟨hg, by simpa using hr, ?_⟩
+        unfold verifySignatures at hv
+        obtain ⟨ks, hn, hl, hm⟩ := alert_accept_needs_threshold_distinct_member_keys _ _ _ hv
+        refine ⟨ks, hn, hl, fun k hk => ⟨(hm k hk).1, ?_⟩⟩
+        obtain ⟨p, hp, hpk⟩ := List.mem_map.mp (hm k hk).2
+        obtain ⟨hz, hc⟩ := List.mem_filter.mp hp
+        refine ⟨p.1, ?_, hc⟩
+        rw [← hpk]
+        exact hz
+
+/-- a 65-byte item with `r = s = 1`, `v = 0` (in range, hence counted) -/
+def sigOneOne : Bytes := List.replicate 31 0 ++ [1] ++ List.replicate 31 0 ++ [1] ++ [0]
+
+/-- a well-formed alert (id 1, priority 9, notice_until 5, empty message, no version bounds) with that one item -/
+def sampleAlert : Bytes :=
+  encDyn [encDyn [[5, 0, 0, 0, 0, 0, 0, 0], le32 1, le32 0, le32 9, le32 0, [], []], encDyn [le32 65 ++ sigOneOne]]
+
+-- non-vacuity: with key 7 configured, threshold 1, peers 1 and 2 connected and the item produced by key 7
+-- the message from peer 1 is relayed to peer 2; produced by another key it is refused; a second copy is ignored
+example : (received 1 [7] {} 1 [1, 2] sampleAlert [some 7] true).2 = .relay [2] ∧
+    (received 1 [7] {} 1 [1, 2] sampleAlert [some 8] true).2 = .badSig (.threshold 0) ∧
+    (received 1 [7] (received 1 [7] {} 1 [1, 2] sampleAlert [some 7] true).1 2 [1, 2] sampleAlert [some 7] true).2 = .ignored ∧
+    ((connected (received 1 [7] {} 1 [1, 2] sampleAlert [some 7] true).1 4).2.map (·.id) = [1]) ∧
+    ((connected (received 1 [7] {} 1 [1, 2] sampleAlert [some 7] true).1 5).2 = []) := by decide +kernel
+
+/-- a message that is not relayed (malformed, not UTF-8, known id, bad signatures) changes nothing:
+neither the notifier nor the known lists -/
+theorem alert_rejected_no_effect (m : Nat) (pks : List K) (st : St) (peer : Nat) (conn : List Nat)
+    (bs : Bytes) (cls : List (Option K)) (eff : Bool)
+    (h : ∀ to, (received m pks st peer conn bs cls eff).2 ≠ .relay to) :
+    (received m pks st peer conn bs cls eff).1 = st := by
+  unfold received at h ⊢
+  cases hg : gate bs with
+  | malformed => rfl
+  | notUtf8 => rfl
+  | pass =>
+    simp only [hg] at h ⊢
+    by_cases hr : hasReceived st (alertOf bs).id = true
+    · simp [hr]
+    · simp only [hr, if_false] at h ⊢
+      cases hv : verifySignatures m pks bs cls with
+      | some e => rfl
+      | none =>
+        simp only [hv] at h
+        exact absurd rfl (h _)
+
+/-- BOUNDED STATE: whatever peers send, the two LRU caches of the alert handler stay within their
+capacities (`KNOWN_LIST_SIZE` peers, `CANCEL_FILTER_SIZE` cancelled ids) -/
+theorem alert_caches_bounded (m : Nat) (pks : List K) (st : St) (peer : Nat) (conn : List Nat)
+    (bs : Bytes) (cls : List (Option K)) (eff : Bool)
+    (hk : st.known.length ≤ CkbVerif.Gen.Codec.ALERT_KNOWN_LIST_SIZE)
+    (hc : st.cancelled.length ≤ CkbVerif.Gen.Codec.ALERT_CANCEL_FILTER_SIZE) :
+    (received m pks st peer conn bs cls eff).1.known.length ≤ CkbVerif.Gen.Codec.ALERT_KNOWN_LIST_SIZE ∧
+    (received m pks st peer conn bs cls eff).1.cancelled.length ≤ CkbVerif.Gen.Codec.ALERT_CANCEL_FILTER_SIZE := by
+  have hadd : ∀ (s : St) (a : AlertV), s.known.length ≤ CkbVerif.Gen.Codec.ALERT_KNOWN_LIST_SIZE →
+      s.cancelled.length ≤ CkbVerif.Gen.Codec.ALERT_CANCEL_FILTER_SIZE →
+      (add s a eff).known.length ≤ CkbVerif.Gen.Codec.ALERT_KNOWN_LIST_SIZE ∧
+      (add s a eff).cancelled.length ≤ CkbVerif.Gen.Codec.ALERT_CANCEL_FILTER_SIZE := by
+    intro s a h1 h2
+    have hcl : (cancel s a.cancel).cancelled.length ≤ CkbVerif.Gen.Codec.ALERT_CANCEL_FILTER_SIZE :=
+      lruPut_length_le _ (by decide) _ _ _ h2
+    unfold add
+    split
+    · exact ⟨h1, h2⟩
+    · dsimp only
+      split <;> split <;> (try split) <;> first | exact ⟨h1, hcl⟩ | exact ⟨h1, h2⟩
+  unfold received
+  split
+  · exact ⟨hk, hc⟩
+  · exact ⟨hk, hc⟩
+  · dsimp only
+    split
+    · exact ⟨hk, hc⟩
+    · split
+      · exact ⟨hk, hc⟩
+      · have h1 := markKnown_length_le st.known peer (alertOf bs).id hk
+        have h2 := (selectPeers_spec (alertOf bs).id conn (markKnown st.known peer (alertOf bs).id).1 [] h1).1
+        exact hadd _ _ h2 hc
+
+/-- the relay targets are a sub-list of `connected_peers()` (each connected peer at most once when
+that list has no repetition), in its order -/
+theorem alert_relay_targets_sublist (m : Nat) (pks : List K) (st : St) (peer : Nat) (conn : List Nat)
+    (bs : Bytes) (cls : List (Option K)) (eff : Bool) (to : List Nat)
+    (hk : st.known.length ≤ CkbVerif.Gen.Codec.ALERT_KNOWN_LIST_SIZE)
+    (h : (received m pks st peer conn bs cls eff).2 = .relay to) : to.Sublist conn := by
+  unfold received at h
+  split at h
+  · simp at h
+  · simp at h
+  · dsimp only at h
+    split at h
+    · simp at h
+    · split at h
+      · simp at h
+      · have h1 := markKnown_length_le st.known peer (alertOf bs).id hk
+        obtain ⟨_, sub, hs, he⟩ := selectPeers_spec (alertOf bs).id conn (markKnown st.known peer (alertOf bs).id).1 [] h1
+        simp only [Verdict.relay.injEq] at h
+        rw [← h, he]
+        simpa using hs
+
+/-- `connected` sends only alerts that have not expired -/
+theorem alert_connected_sends_unexpired (st : St) (now : Nat) :
+    ∀ a ∈ (connected st now).2, a.noticeUntil > now := by
+  intro a ha
+  simp only [connected, clearExpired, List.mem_filter, decide_eq_true_eq] at ha
+  exact ha.2
+
+/-- an accepted alert that cancels another id makes that id "received" for good (until the cancel
+filter rolls over): a later copy of the cancelled alert is ignored -/
+theorem alert_cancel_blocks (st : St) (a : AlertV) (eff : Bool) (hc : a.cancel > 0)
+    (hr : hasReceived st a.id = false) : hasReceived (add st a eff) a.cancel = true := by
+  have hcan : ∀ s : St, hasReceived s a.cancel = true → ∀ b : AlertV,
+      hasReceived { s with received := b :: s.received.filter (fun c => !(c.id == b.id)) } a.cancel = true := by
+    intro s hs b
+    simp only [hasReceived, Bool.or_eq_true] at hs ⊢
+    rcases hs with hs | hs
+    · simp only [List.any_cons, Bool.or_eq_true, List.any_eq_true, List.mem_filter]
+      obtain ⟨x, hx, hxe⟩ := List.any_eq_true.mp hs
+      by_cases hxb : x.id = b.id
+      · left; left; simpa [← hxb] using hxe
+      · left; right; exact ⟨x, ⟨hx, by simpa using hxb⟩, hxe⟩
+    · right; exact hs
+  have h0 : hasReceived (cancel st a.cancel) a.cancel = true := by
+    simp only [hasReceived, cancel, lruPut, Bool.or_eq_true]
+    right
+    split <;> simp
+  unfold add
+  rw [if_neg (by simp [hr]), if_pos hc]
+  have h1 := hcan (cancel st a.cancel) h0 a
+  dsimp only
+  split
+  · exact h1
+  · split
+    · exact h1
+    · simpa [hasReceived] using h1
+
+/-- `noticed_alerts` stays ordered by priority (highest first) under `Notifier::add`: the stable
+`sort_by_key(u32::MAX - priority)` after the push is an insertion in front of the first alert of
+strictly lower priority -/
+theorem alert_noticed_sorted (st : St) (a : AlertV) (eff : Bool)
+    (hs : st.noticed.Pairwise (fun x y => x.priority ≥ y.priority)) :
+    (add st a eff).noticed.Pairwise (fun x y => x.priority ≥ y.priority) := by
+  have hins : ∀ l : List AlertV, l.Pairwise (fun x y => x.priority ≥ y.priority) →
+      (insertByPriority a l).Pairwise (fun x y => x.priority ≥ y.priority) ∧
+      ∀ z ∈ insertByPriority a l, z = a ∨ z ∈ l := by
+    intro l
+    induction l with
+    | nil => intro _; simp [insertByPriority]
+    | cons b rest ih =>
+      intro hl
+      obtain ⟨hb, hrest⟩ := List.pairwise_cons.mp hl
+      unfold insertByPriority
+      split
+      · rename_i hlt
+        refine ⟨List.pairwise_cons.mpr ⟨fun z hz => ?_, hl⟩, fun z hz => ?_⟩
+        · rcases List.mem_cons.mp hz with rfl | hz
+          · omega
+          · have := hb z hz; omega
+        · rcases List.mem_cons.mp hz with rfl | hz
+          · exact Or.inl rfl
+          · exact Or.inr hz
+      · rename_i hge
+        obtain ⟨ih1, ih2⟩ := ih hrest
+        refine ⟨List.pairwise_cons.mpr ⟨fun z hz => ?_, ih1⟩, fun z hz => ?_⟩
+        · rcases ih2 z hz with rfl | hz
+          · omega
+          · exact hb z hz
+        · rcases List.mem_cons.mp hz with rfl | hz
+          · exact Or.inr List.mem_cons_self
+          · rcases ih2 z hz with h | h
+            · exact Or.inl h
+            · exact Or.inr (List.mem_cons_of_mem _ h)
+  have hc : (cancel st a.cancel).noticed.Pairwise (fun x y => x.priority ≥ y.priority) :=
+    List.Pairwise.sublist List.filter_sublist hs
+  unfold add
+  split
+  · exact hs
+  · dsimp only
+    split <;> split <;> (try split) <;> first | exact hc | exact hs | exact (hins _ hc).1 | exact (hins _ hs).1
+
+/-- `std::str::from_utf8` accepts every ASCII string (`utf8Valid` is total and its fuel is enough:
+`utf8Fuel_mono` in `Lemmas/Alert.lean`) -/
+theorem utf8_valid_of_ascii (bs : Bytes) (h : ∀ b ∈ bs, b.toNat < 128) : utf8Valid bs = true :=
+  utf8Fuel_ascii bs bs.length (Nat.le_refl _) h
+
+/-- `Identify::verify` is decided for every byte string: with the UTF-8 test modelled nothing is left
+open, and where `identifyVerify` (`Model/Proto.lean`) already decided, the answer is unchanged -/
+theorem identify_verify_decided (name bs : Bytes) :
+    identifyVerifyFull name bs ≠ .undecided ∧
+    (CkbVerif.Proto.identifyVerify name bs ≠ .undecided → identifyVerifyFull name bs = CkbVerif.Proto.identifyVerify name bs) := by
+  unfold identifyVerifyFull
+  cases h : CkbVerif.Proto.identifyVerify name bs with
+  | none => simp
+  | some f => simp
+  | undecided =>
+    constructor
+    · simp only; split <;> simp
+    · intro hc; exact absurd rfl hc
+
+/-- every step of the UTF-8 test consumes at least one byte and at most four -/
+theorem utf8_step_consumes (bs r : Bytes) (h : utf8Step bs = some r) : r.length < bs.length :=
+  utf8Step_shorter bs r h
+
+example : utf8Valid [0xe2, 0x82, 0xac] = true ∧ utf8Valid [0xe2, 0x82] = false ∧ utf8Valid [0xed, 0xa0, 0x80] = false ∧
+    utf8Valid [0xf4, 0x8f, 0xbf, 0xbf] = true ∧ utf8Valid [0xf4, 0x90, 0x80, 0x80] = false ∧ utf8Valid [0xc0, 0xaf] = false := by decide
+
+end Alert
 
 end CkbVerif.C16
